@@ -48,6 +48,11 @@ def plan(tier):
     for level in ("1.1", "1.5", "3.1"):
         for n_mp in (0, 1):
             add([("HH", None), ("HV", None), ("VH", None), ("VV", None)], level=level, n_mp=n_mp)
+    # images whose per-line values are almost equal (one unit of the last binary digit apart), or equal in pairs
+    for mode in ("near", "near-pairs", "equal"):
+        for level, names in (("1.1", [("HH", "F1"), ("HH", "F2"), ("HH", "F3"), ("HV", "F1")]), ("1.5", [("HH", None), ("HV", None), ("VH", None), ("VV", None)]), ("1.1", [("HH", None), ("HV", None)])):
+            cases.append({"spec": {"level": level, "images": [[pol, scan, 3, 2] for pol, scan in names], "line_mode": mode}, "label": f"{level} {len(names)} images, per-line values {mode}"})
+            cases.append({"spec": {"level": level, "images": [[pol, scan, 3, 2] for pol, scan in names[::-1]], "line_mode": mode}, "label": f"{level} {len(names)} images reversed, per-line values {mode}"})
     # section orders through open_alos2
     spec = treecheck.spec_from_case({"spec": {"level": "1.5", "images": images_for([("HH", None), ("HV", None)])}})
     lines = synth.summary_lines(spec)
